@@ -2,7 +2,7 @@
 //verif:use fakes_client
 //verif:use fakes_mcp
 //verif:use streams_mcp
-//verif:bound one pending call per client and one fault: the answer stream has delivered {nothing, an id line, a partial data line, a complete notification event, the complete answer} when it {ends (EOF), fails (reset), stalls and the caller's context is cancelled, stalls and the deadline passes}; Streamable client with SSE answers (with / without notification handler) and JSON answers cut at {start, middle, end}; legacy SSE client (pending call, then a second call after the stream ended); stdio client transport with {context cancelled, transport timeout, the child process exiting with status 0 or 3 with or without a truncated line before (a real /bin/sh natively, a modelled exec.Cmd whose Wait blocks until the exit in the engine), Close from another goroutine - every schedule with <= 2 preemptions}; legacy SSE client: Close while the reader delivers an answer - every schedule with <= 3 (thorough 4) preemptions; release: goroutines and table entries after Close on each client and after the peer's streams end on the Streamable and legacy SSE servers; Streamable server: the write of a server-issued request to the listening stream fails (at the id line, the data line or the closing blank line), then a notification and a second request (context then cancelled) to the same session
+//verif:bound one pending call per client and one fault: the answer stream has delivered {nothing, an id line, a partial data line, a complete notification event, the complete answer} when it {ends (EOF), fails (reset), stalls and the caller's context is cancelled, stalls and the deadline passes}; Streamable client with SSE answers (with / without notification handler) and JSON answers cut at {start, middle, end}; legacy SSE client (pending call, then a second call after the stream ended); stdio client transport with {context cancelled, transport timeout, the child process exiting with status 0 or 3 with or without a truncated line before (a real /bin/sh natively, a modelled exec.Cmd whose Wait blocks until the exit in the engine), Close from another goroutine - every schedule with <= 2 preemptions}; legacy SSE client: Close while the reader delivers an answer - every schedule with <= 3 (thorough 4) preemptions; release: goroutines and table entries after Close on each client and after the peer's streams end on the Streamable and legacy SSE servers; Streamable server: the write of a server-issued request to the listening stream fails (at the id line, the data line or the closing blank line), then a notification and a second request (context then cancelled) to the same session; the write of a POST's answer (JSON, or SSE with two in-call notifications) fails from the 1st..8th Write on, then a ping on the session
 //verif:assume request bodies observe the request context as net/http's do (a read fails once the context ends); real sockets, child processes and file descriptors are outside the claim (the stdio transport runs over in-memory pipes); faults at byte offsets other than the listed boundaries are outside the bound
 package mcp
 
@@ -493,6 +493,53 @@ func H_C08_streamable_server_release() {
 
 // H_C08_streamable_server_write_failure: the peer goes away while a server-issued request is written.
 func H_C08_streamable_server_write_failure() { c11StreamWriteFailure() }
+
+// H_C08_streamable_server_answer_write_failure: the peer of a POST goes away while the answer (JSON or SSE with
+// in-call notifications) is written: the exchange still ends, later exchanges of the session are served, nothing
+// is left behind.
+func H_C08_streamable_server_answer_write_failure() {
+	vRandConcrete(true)
+	sse := vBool("sseAnswers")
+	srv := NewServer("srv", "1.0", WithPostSSEEnabled(sse), WithGetSSEEnabled(false))
+	sendErrs := 0
+	srv.RegisterTool(NewTool("t"), func(ctx context.Context, r *CallToolRequest) (*CallToolResult, error) {
+		if sender, ok := GetNotificationSender(ctx); ok {
+			for i := 0; i < 2; i++ {
+				if err := sender.SendCustomNotification("n/x", map[string]interface{}{"i": float64(i)}); err != nil {
+					sendErrs++
+				}
+			}
+		}
+		return NewTextResult("done"), nil
+	})
+	a := c11Session(srv)
+	vAssume(a != "")
+	base := vGoroutines()
+	rec := newVerifRecorder()
+	rec.failFrom = 1 + vChoice("failAtWrite", 8)
+	rec.failShort = vBool("shortWrite")
+	done := make(chan struct{})
+	go func() {
+		srv.httpHandler.ServeHTTP(rec, verifRequest("POST", "/mcp", []byte(`{"jsonrpc":"2.0","id":7,"method":"tools/call","params":{"name":"t"}}`),
+			"Accept", "application/json, text/event-stream", "Content-Type", "application/json", "Mcp-Session-Id", a))
+		close(done)
+	}()
+	vAssert("exchange-with-failing-writer-ends", c11Wait(done))
+	vQuiesce()
+	rec2 := newVerifRecorder()
+	srv.httpHandler.ServeHTTP(rec2, verifRequest("POST", "/mcp", []byte(`{"jsonrpc":"2.0","id":8,"method":"ping"}`),
+		"Accept", "application/json, text/event-stream", "Content-Type", "application/json", "Mcp-Session-Id", a))
+	frame, ok := c03Frame(rec2, sse)
+	fm, _ := verifObj(frame)
+	_, hasResult := fm["result"]
+	vAssert("later-exchange-served", vAnd(rec2.code() == 200, vAnd(ok, vAnd(hasResult, fm["id"] == float64(8)))))
+	srv.httpHandler.responseManager.mutex.RLock()
+	pending := len(srv.httpHandler.responseManager.pendingRequests)
+	srv.httpHandler.responseManager.mutex.RUnlock()
+	vAssert("nothing-left-pending", pending == 0)
+	vAssert("no-goroutine-left-behind", vGoroutines() <= base)
+	vReach("end")
+}
 
 // H_C08_legacy_server_release: a legacy SSE session whose peer goes away.
 func H_C08_legacy_server_release() {
